@@ -544,6 +544,7 @@ func (e *Enc) evalField(base SV, name string, ctx *SpecCtx) (SV, error) {
 			// heap object
 			if isObjStruct(f.Type()) {
 				cur = SV{T: e.subAddr(st, idx, cur.T), Sort: "Ref", Typ: types.NewPointer(f.Type())}
+				e.specLoadFact(cur.T, "Ref", ctx.cur)
 			} else {
 				c := e.fieldComp(st, idx)
 				cur = SV{T: sel(e.get(ctx.cur, c), cur.T), Sort: e.sortOf(f.Type()), Typ: f.Type()}
@@ -568,7 +569,7 @@ func (e *Enc) evalIndex(base, idx SV, ctx *SpecCtx) (SV, error) {
 			return SV{T: val, Sort: e.sortOf(t.Elem()), Typ: t.Elem()}, nil
 		case *types.Slice:
 			c := e.sliceComp(t.Elem())
-			r := SV{T: sel(sel(e.get(ctx.cur, c), "(s_arr "+base.T+")"), "(+ (s_off "+base.T+") "+idx.T+")"), Sort: e.sortOf(t.Elem()), Typ: t.Elem()}
+			r := SV{T: sel(sel(e.get(ctx.cur, c), "(s_arr "+base.T+")"), "(sidx (s_off "+base.T+") "+idx.T+")"), Sort: e.sortOf(t.Elem()), Typ: t.Elem()}
 			e.specLoadFact(r.T, r.Sort, ctx.cur)
 			return r, nil
 		case *types.Array:
